@@ -113,6 +113,50 @@ def _rfn(ctx, q: str, **kw):
 
 
 
+def _running_total_form(fn):
+    """from_bpm_changes_snap written without a loop:
+        durations = ((child.snap - parent.snap).offset(parent) for parent, child in zip(X[:-1], X[1:]))
+        offsets   = accumulate(durations, initial=<initial offset>)
+        changes   = [BpmChangeOffset(c.bpm, c.metronome, t) for c, t in zip(X, offsets)]
+    -> dict(gen, elt, parent, child, base, acc, comp) or None; names are resolved through locals bound once"""
+    def res(e):
+        for _ in range(3):
+            if isinstance(e, ast.Name):
+                ds = [x.value for x in walk_no_nested(fn.node) if isinstance(x, ast.Assign) and len(x.targets) == 1 and
+                      isinstance(x.targets[0], ast.Name) and x.targets[0].id == e.id]
+                if len(ds) == 1:
+                    e = ds[0]
+                    continue
+            break
+        return e
+    for comp in (n for n in ast.walk(fn.node) if isinstance(n, (ast.ListComp, ast.GeneratorExp))):
+        if not (isinstance(comp.elt, ast.Call) and call_name(comp.elt) == "BpmChangeOffset" and len(comp.generators) == 1):
+            continue
+        g = comp.generators[0]
+        if not (isinstance(g.iter, ast.Call) and call_name(g.iter) == "zip" and len(g.iter.args) == 2 and isinstance(g.target, ast.Tuple) and
+                len(g.target.elts) == 2 and not g.ifs):
+            continue
+        base, acc = g.iter.args[0], res(g.iter.args[1])
+        if isinstance(acc, ast.Call) and call_name(acc) in ("list", "tuple") and len(acc.args) == 1:
+            acc = res(acc.args[0])
+        if not (isinstance(acc, ast.Call) and call_name(acc) == "accumulate" and len(acc.args) == 1 and {k.arg for k in acc.keywords} == {"initial"}):
+            continue
+        gen = res(acc.args[0])
+        if not (isinstance(gen, (ast.ListComp, ast.GeneratorExp)) and len(gen.generators) == 1 and not gen.generators[0].ifs):
+            continue
+        gg = gen.generators[0]
+        if not (isinstance(gg.iter, ast.Call) and call_name(gg.iter) == "zip" and len(gg.iter.args) == 2 and isinstance(gg.target, ast.Tuple) and
+                len(gg.target.elts) == 2 and all(isinstance(t, ast.Name) for t in gg.target.elts)):
+            continue
+        a0, a1 = gg.iter.args
+        if not (unparse(a0) == unparse(base) + "[:-1]" and unparse(a1) == unparse(base) + "[1:]"):
+            continue
+        return dict(gen=gen, elt=gen.elt, parent=gg.target.elts[0].id, child=gg.target.elts[1].id, base=base, acc=acc, comp=comp,
+                    cvar=unparse(g.target.elts[0]), tvar=unparse(g.target.elts[1]))
+    return None
+
+
+
 def _direct_bisect(fn, rid, key, meth, file) -> Optional[List[R.Inst]]:
     """`for q in QUERIES: i = bisect_*(KEYS, q) - 1; ...; acc.append(..)` and `return np.array(acc)`: query order is kept by
     construction; the segment selection must put a query that EQUALS a change position into the segment that change starts
@@ -531,6 +575,24 @@ def rule_r4(ctx) -> List[R.Inst]:
                                     "the time between two changes is the position difference integrated at the EARLIER change's tempo",
                                     construct="; ".join(unparse(x) for x in diff + step)))
     if not done:
+        rt = _running_total_form(fs)
+        if rt is not None:
+            e = rt["elt"]
+            seg_ok = isinstance(e, ast.Call) and call_name(e) == "offset" and isinstance(e.func.value, ast.BinOp) and \
+                isinstance(e.func.value.op, ast.Sub) and unparse(e.func.value.left) == f"{rt['child']}.snap" and \
+                unparse(e.func.value.right) == f"{rt['parent']}.snap" and len(e.args) == 1 and unparse(e.args[0]) == rt["parent"]
+            insts.append(R.ok(rid, "from_bpm_changes_snap:segment", ff, e.lineno,
+                              idiom="running total of (child.snap - parent.snap).offset(parent): each segment at its own tempo") if seg_ok else
+                         R.viol(rid, "from_bpm_changes_snap:segment", ff, e.lineno,
+                                "the time between two changes is the position difference integrated at the EARLIER change's tempo",
+                                construct=unparse(e)[:160]))
+            app = rt["comp"].elt
+            ch_ok = [unparse(a) for a in app.args] == [f"{rt['cvar']}.bpm", f"{rt['cvar']}.metronome", rt["tvar"]] and not app.keywords
+            insts.append(R.ok(rid, "from_bpm_changes_snap:change", ff, app.lineno, idiom="change = (own bpm, own metronome, its running total)") if ch_ok else
+                         R.viol(rid, "from_bpm_changes_snap:change", ff, app.lineno,
+                                "each tempo change must carry its own bpm and metronome at the accumulated time", construct=unparse(app)[:160]))
+            done = True
+    if not done:
         insts.append(R.undec(rid, "from_bpm_changes_snap:segment", ff, fs.node.lineno, "consecutive-pair loop not found"))
     # TimingMap.offsets: change[i].offset + (snap - change_snap[i].snap).offset(change_snap[i]) with one index
     fo = _rfn(ctx, T.TIMINGMAP + ".offsets", subst="alias")
@@ -796,6 +858,13 @@ def rule_r9(ctx) -> List[R.Inst]:
                  isinstance(n.targets[0] if isinstance(n, ast.Assign) else n.target, ast.Name) and
                  (n.targets[0] if isinstance(n, ast.Assign) else n.target).id == out]
         if out is None or len(inits) != 1 or len(loops) != 1 or not isinstance(inits[0].value, ast.List):
+            rt = _running_total_form(fn)
+            if rt is not None:
+                # zip(X, accumulate(<one duration per consecutive pair of X>, initial=..)): n - 1 durations + the initial value = n
+                # running totals, zipped with the n changes: exactly one entry per change
+                insts.append(R.ok(rid, key, file, rt["comp"].lineno,
+                                  idiom=f"one entry per tempo change: zip(changes, running totals with an initial value) ({what} list)"))
+                continue
             insts.append(R.undec(rid, key, file, fn.node.lineno, "initial list / pairing loop not found"))
             continue
         n0 = len(inits[0].value.elts)
